@@ -635,7 +635,16 @@ func checkMemoryFileTypestate(c *Ctx, r *Report, pkg string) {
 				}
 				return 0
 			})
-			if isBoolConst(ev, true) != nilSide {
+			// the evicted indicator is a bool (true) or an error (non-nil)
+			reported := isBoolConst(ev, true)
+			if isErrorType(ev.Type()) {
+				k := classifyErrValue(ev, ret.Block(), 0)
+				if k != RetFailure && k != RetSuccess {
+					okgd = false
+				}
+				reported = k == RetFailure
+			}
+			if reported != nilSide {
 				okgd = false
 			}
 		}
@@ -658,6 +667,13 @@ func checkMemoryFileTypestate(c *Ctx, r *Report, pkg string) {
 						if !guardedBy(rf, func(cond ssa.Value, val bool) int {
 							if cond == ev[0] {
 								return tern(val, -1, 1)
+							}
+							if b, isB := cond.(*ssa.BinOp); isB && (b.Op == token.EQL || b.Op == token.NEQ) && isErrorType(ev[0].Type()) {
+								// a named error result is a local cell: the tested value is the reload of what was just stored
+								if (unspill(b.X) == ev[0] && isNilConst(b.Y)) || (unspill(b.Y) == ev[0] && isNilConst(b.X)) {
+									evicted := (b.Op == token.NEQ) == val
+									return tern(evicted, -1, 1)
+								}
 							}
 							return 0
 						}) {
@@ -730,7 +746,7 @@ func checkMemoryFileTypestate(c *Ctx, r *Report, pkg string) {
 			r.Check(held, r7, fn, "store *data", st, "under sliceMu write lock", "the shared slice header is replaced without holding sliceMu in write mode")
 		})
 	}
-	r8 := r.Rule("R8", "E-ORDER", "every delete from the memory store's blob table is preceded, on every path, by '*b.data = nil' executed under b.sliceMu.Lock", 2)
+	r8 := r.Rule("R8", "E-ORDER", "every delete from the memory store's blob table is preceded on every path, or followed on every path before the function returns, by '*b.data = nil' executed under b.sliceMu.Lock", 2)
 	for _, fn := range c.FuncsIn(pkg) {
 		if c.isFixture(fn) {
 			continue
@@ -779,7 +795,19 @@ func checkMemoryFileTypestate(c *Ctx, r *Report, pkg string) {
 					}
 				})
 			}
-			r.Check(ok, r8, fn, "delete(blobs) after nil-ing data", in, "data slice cleared first", "a blob is removed from the memory store without clearing its data slice: handles opened earlier keep serving stale bytes instead of the evicted error")
+			// or the clearing follows the delete on every path to the function's exit
+			// (and before the next delete): both happen in the caller-visible step.
+			if !ok {
+				ok = followedOnEveryPath(in, func(in2 ssa.Instruction) bool {
+					st, isSt := in2.(*ssa.Store)
+					if !isSt || !isNilConst(st.Val) {
+						return false
+					}
+					ld, isLd := st.Addr.(*ssa.UnOp)
+					return isLd && isFieldRef(ld.X, tBlob+".data")
+				})
+			}
+			r.Check(ok, r8, fn, "delete(blobs) after nil-ing data", in, "data slice cleared in the same step","a blob is removed from the memory store without clearing its data slice: handles opened earlier keep serving stale bytes instead of the evicted error")
 		})
 	}
 	// R10: R8's "*b.data = nil" reaches the handles only because they hold the same
